@@ -7,13 +7,16 @@ SRC = 'core/src/language/swift.rs'
 PRELUDE = r'''
 // ---------- T7 stubs (field types this unit only stores)
 #[verifier::external_body] pub struct GenericConstraints { _p: u8 }
-/// std::sync::atomic::AtomicBool: the CodableVoid flag (C12's domain); `store` through a shared reference changes nothing a
-/// specification of this unit can see
+/// T7: std::sync::atomic::AtomicBool - the CodableVoid flag.  The code is sequential and holds `&mut self` wherever it stores, so
+/// `store` (through `&self` in std) is verified as an update of the flag
 #[verifier::external_body] pub struct AtomicBool { _p: u8 }
 pub enum Ordering { SeqCst }
 impl AtomicBool {
+    pub uninterp spec fn is_set(&self) -> bool;
     #[verifier::external_body]
-    pub fn store(&self, v: bool, o: Ordering) { unimplemented!() }
+    pub fn store(&mut self, v: bool, o: Ordering)
+        ensures final(self).is_set() == v
+    { unimplemented!() }
 }
 '''
 
@@ -23,7 +26,15 @@ UNIT = F.make_unit('fmt_swift', 'Swift', SRC, 'Swift',
                    'TCfg { lang: Lang::Swift, map: self.type_mappings@, prefix: self.prefix@, no_pointer_slice: false }',
                    PRELUDE, SPECIAL,
                    overrides={'format_simple_type': (F.simple_contract('generic_types'), ('fmt',))},
-                   trusted_extra=['stub: AtomicBool::store (CodableVoid flag) has no effect visible to this unit'])
+                   trusted_extra=['T7: AtomicBool::store verified as an update of the flag (sequential code holding &mut self)'],
+                   x12={
+                       'frame': '/*C12: the CodableVoid flag is never cleared*/ old(self).should_emit_codable_void.is_set() ==> final(self).should_emit_codable_void.is_set(),',
+                       'ty': '/*C12: a type expression that prints `CodableVoid` has raised the flag that makes its definition be emitted*/ (r is Ok && reaches(old(self).cfg(), *ty, Kind::Unit)) ==> final(self).should_emit_codable_void.is_set(),',
+                       'gen': '/*C12*/ (r is Ok && reaches_any(old(self).cfg(), *base, parameters@, Kind::Unit)) ==> final(self).should_emit_codable_void.is_set(),',
+                       'special': '/*C12*/ (r is Ok && reaches_special(old(self).cfg(), *special_ty, Kind::Unit)) ==> final(self).should_emit_codable_void.is_set(),',
+                       'inv': '\n                    /*C12*/ (old(self).should_emit_codable_void.is_set() ==> self.should_emit_codable_void.is_set()), forall|k: int| 0 <= k < it.index@ ==> (reaches(c0, #[trigger] parameters@[k], Kind::Unit) ==> self.should_emit_codable_void.is_set()),',
+                   })
+UNIT.spec_files = list(UNIT.spec_files) + ['helpers.rs']
 
 
 def native(workdir):
